@@ -337,3 +337,46 @@ func TestMapSemantics(t *testing.T) {
 		runHistory(rt, kind, fixed)
 	})
 }
+
+// Value lengths: every length from 0 to beyond two 512-byte blocks (and a few around larger powers of two), on keys of
+// three lengths, on a memory and on a persistent store; each value is looked up through the writing trie, through a
+// trie opened on the root afterwards, and after it was replaced by its neighbour in length.
+func TestValueLengths(t *testing.T) {
+	ev.Guard(t, "TestValueLengths", func() {
+		seed := ev.SeedFor("TestValueLengths")
+		lengths := []int{}
+		for L := 0; L <= 1100; L++ {
+			lengths = append(lengths, L)
+		}
+		for _, c := range []int{1536, 2048, 4096, 8192, 65536} {
+			for d := -70; d <= 2; d++ {
+				lengths = append(lengths, c+d)
+			}
+		}
+		keys := []string{"ab", "0123456789abcdef", "0123456789abcdef0123456789abcdef0123456789abcdef0123456789abcdef"}
+		for _, kind := range []string{"memory", "pndb"} {
+			st := mptkit.NewStore(kind)
+			mpt := mptkit.NewTrie(st.DB, int64(seed%4), nil)
+			for _, L := range lengths {
+				for ki, key := range keys {
+					// the first key is empty-valued at L=0: an empty value is a removal there, so lengths start at 1
+					if L == 0 {
+						continue
+					}
+					val := bytes.Repeat([]byte{byte(L), byte(seed), 0x3a, byte(ki)}, L/4+1)[:L]
+					if _, err := mpt.Insert(util.Path(key), mptkit.Val(val)); err != nil {
+						t.Fatalf("%s store: insert of a %d-byte value under %q: %v", kind, L, key, err)
+					}
+					for name, tr := range map[string]*util.MerklePatriciaTrie{"the writing trie": mpt, "a trie opened on the root": mptkit.NewTrie(st.DB, int64(seed%4), mpt.GetRoot())} {
+						got, err := tr.GetNodeValueRaw(util.Path(key))
+						if err != nil || !bytes.Equal(got, val) {
+							t.Fatalf("%s store: %d-byte value under %q: lookup through %s returns %d bytes (%v)", kind, L, key, name, len(got), err)
+						}
+					}
+					ev.Case(fmt.Sprintf("len/%s/%d/%d", kind, L, ki), (L+len(key))%512 < 4 || L%512 < 2, "value-length-sweep")
+				}
+			}
+			st.Close()
+		}
+	})
+}
